@@ -405,6 +405,9 @@ namespace GeographicLib {
       if (!(c[l] > tolJAC * a[l])) break;
       ++l;
     }
+    // l == num_ only on a convergence failure (e.g., non-finite parameters);
+    // don't index past the end of a[] and c[].
+    if (l == num_) --l;
     // Now a[l] = pi/(2*K)
     // Need to initialize phi1 to stop Visual Studio complaining
     real phi = a[l] * x * real(1 << l), phi1 = 0;
